@@ -112,6 +112,7 @@ Lemma engine_ok k call size (s : os) res err s' :
   exists init tl, o_trace s' = (K_ENG, [call; size; res; err; init]) :: tl.
 Proof.
   unfold engine. intros H. apply bind_inv in H. destruct H as [[[] [s1 [_ H]]]|[r0 [_ [_ Hr]]]]; [|exfalso; exact (recast_not_ok _ _ Hr)].
+  apply bind_inv in H. destruct H as [[[] [s1' [_ H]]]|[r0 [_ [_ Hr]]]]; [|exfalso; exact (recast_not_ok _ _ Hr)].
   apply bind_inv in H. destruct H as [[x [s2 [_ H]]]|[r0 [_ [_ Hr]]]]; [|exfalso; exact (recast_not_ok _ _ Hr)].
   destruct (x_eng x) as [|[c args] tl]; [inversion H|].
   destruct (c =? 8) eqn:Ec; [apply Z.eqb_eq in Ec; subst c|].
